@@ -14,7 +14,7 @@ import (
 func init() { register("C07", runC07) }
 
 func runC07(c *Check, tier string) {
-	c.Decides = "a file can appear under a final cache key only by os.Rename of a file obtained from os.CreateTemp in the same directory, after the content copy and Close returned nil, and the final path is never opened for writing; only the fs backend (plus the locker, `clean` and the per-target logs) creates or renames files under the grog root; the result is written after its blobs (R01d); the digest and the bytes handed to a CAS write come from the same path / byte slice; the 'exists' memo is set only after a successful write or a positive backend answer; no first-party reader manufactures io.EOF."
+	c.Decides = "a file can appear under a final cache key only by os.Rename of a file obtained from os.CreateTemp in the same directory, after the content copy and Close returned nil, and the final path is never opened for writing; only the fs backend (plus the locker, `clean` and the per-target logs) creates or renames files under the grog root; the result is written after its blobs (R01d); the digest and the bytes handed to a CAS write come from the same path / byte slice; the 'exists' memo is set only after a successful write or a positive backend answer; no first-party reader manufactures io.EOF; a remote blob enters the local tier only whole (read-through fill with the complete remote stream; a failed copy into a pipe closes it with the error); cache entries are never linked into the workspace."
 	c.NotDec = "interleavings with a concurrent process, fsync/power loss, TOCTOU between hashing and uploading a file that is still changing, remote-side atomicity."
 	ruleR07a(c)
 	ruleR07b(c, "R07b")
@@ -26,6 +26,7 @@ func runC07(c *Check, tier string) {
 	if w := findWrapper(c, "R07g"); w != nil {
 		ruleR08b(c, w, "R07g")
 	}
+	rulePipeErrorPropagated(c, "R07h")
 }
 
 func fsCacheMethods(c *Check) []*ssa.Function {
